@@ -47,6 +47,8 @@ type cfg struct {
 	D2Phase int    `json:"d2_phase,omitempty"`
 	Limit   string `json:"limit_action"`
 	D0      bool   `json:"d0,omitempty"` // a deny rule (id 200) in phase 1 *before* the ctl switch
+	// BadBody: the JSON body processor is selected, every body the history writes is rejected by it
+	BadBody bool `json:"bad_body,omitempty"`
 }
 
 type kase struct {
@@ -86,6 +88,9 @@ func (c cfg) conf() string {
 		fmt.Fprintf(&sb, "SecAction \"id:%d,phase:%d,pass,nolog,setvar:tx.p%d=+1\"\n", 100+p, p, p)
 		if p == 1 && c.D0 {
 			sb.WriteString("SecAction \"id:200,phase:1,log,deny,status:402\"\n")
+		}
+		if p == 1 && c.BadBody {
+			sb.WriteString("SecAction \"id:160,phase:1,pass,nolog,ctl:requestBodyProcessor=JSON\"\n")
 		}
 		if p == 1 && c.Ctl != "" {
 			fmt.Fprintf(&sb, "SecAction \"id:150,phase:1,pass,nolog,ctl:ruleEngine=%s\"\n", c.Ctl)
@@ -393,6 +398,11 @@ func configs(thorough bool, emit func(c cfg)) {
 			}
 			for _, lim := range []string{"Reject", "ProcessPartial"} {
 				emit(cfg{Engine: e, Ctl: ctl, Limit: lim})
+				if ctl == "" && e != "Off" {
+					// the body processor fails on the body: the phase still runs once, a later deny still interrupts
+					emit(cfg{Engine: e, Limit: lim, BadBody: true})
+					emit(cfg{Engine: e, Limit: lim, BadBody: true, D1Phase: 2, D1Kind: "deny", D2Phase: 3})
+				}
 				if lim == "Reject" && e != "Off" {
 					// a disruptive rule before the switch: would-be interruption in DetectionOnly, real one in On
 					emit(cfg{Engine: e, Ctl: ctl, Limit: lim, D0: true})
